@@ -42,7 +42,7 @@ def _core(fx, col):
     for r in (R.rule_publish_confirm, R.rule_intent_first, R.rule_pay_before_release, R.rule_cover_all, R.rule_claim_empty,
               O.rule_pay_cas, R.rule_pay_used, R.rule_slot_closed, O.rule_inuse_fsm, N.rule_reuse_first, P.rule_next_once,
               T.rule_cooldown_owned, T.rule_node_stable, I.rule_addr_guard, I.rule_addr_before_gen, I.rule_own_storage,
-              O.rule_mp, O.rule_rmw_only, L.rule_ledger, L.rule_bypass, A.rule_lock_span):
+              O.rule_mp, O.rule_rmw_only, L.rule_ledger, L.rule_bypass, A.rule_lock_span, A.rule_wrapper_pure):
         r(fx, col)
 
 
